@@ -104,7 +104,8 @@ EDITS = ["add-type", "remove-field", "add-field", "retype-field", "add-optional-
          "deprecation-reason", "add-union-member", "remove-union-member", "add-interface-implementation",
          "remove-interface-implementation", "add-directive", "remove-directive", "add-directive-location", "remove-directive-location",
          "add-directive-argument", "remove-directive-argument", "retype-directive-argument", "remove-type", "change-leaf-kind",
-         "mirror-nullability", "mirror-nullability", "rename-enum-value", "refine-implementation-field", "refine-implementation-field"]
+         "mirror-nullability", "mirror-nullability", "rename-enum-value", "refine-implementation-field", "refine-implementation-field",
+         "change-root"]
 
 
 def apply_edit(draw, s, kind, uid, protected=None):
@@ -283,6 +284,28 @@ def apply_edit(draw, s, kind, uid, protected=None):
         if _has_default_of(s, n):
             return None
         return _default_edit(draw, s, f, out, ["InputFieldDefaultValueChange"], [n, f["name"]])
+    if kind == "change-root":
+        # a root operation type gained, dropped or pointed at another object type (the types themselves stay as they are)
+        op = draw(st.sampled_from(["mutation", "subscription", "query"]))
+        if "root/" + op in protected_full:
+            raise _Conflict()   # one change per root: a second one would hide the first
+        protected_full.add("root/" + op)
+        cur = s.get(op)
+        others = [o for o in plain_objs if o not in (s.get("query"), s.get("mutation"), s.get("subscription")) and o not in protected_added]
+        if cur is None:
+            if not others:
+                return None
+            new = draw(st.sampled_from(others))
+            s[op] = new
+            return out(["RootTypeChanged"], [op, new], False)
+        if op != "query" and draw(st.booleans()):
+            s[op] = None
+            return out(["RootTypeChanged"], [op, cur], True)
+        if not others:
+            return None
+        new = draw(st.sampled_from(others))
+        s[op] = new
+        return out(["RootTypeChanged"], [op, cur, new], True)
     if kind == "refine-implementation-field":
         # an edit of an interface-declared field made on one implementing object only (the interface is untouched and the
         # object still implements it): covariant nullability, an extra optional argument
